@@ -66,10 +66,10 @@ theorem validity_recovered (t : Int) : (dateTimeOfEpoch t).epochSeconds = t := b
   · cases h
 
 /-- subject alternative names (values of the validated types: IP octets of length 4 or 16,
-    otherName text valid UTF-8) -/
+    otherName text valid UTF-8, identifier components fitting the `u64` they are given as) -/
 theorem san_recovered (s : SanType)
     (hip : ∀ o, s = .ip o → o.length = 4 ∨ o.length = 16)
-    (hother : ∀ oid v, s = .otherName oid v → utf8Valid v = true) :
+    (hother : ∀ oid v, s = .otherName oid v → utf8Valid v = true ∧ ∀ x ∈ oid, x < 2 ^ 64) :
     importSan (reqSan s) = .ok s := by
   cases s with
   | rfc822 b => rfl
@@ -80,8 +80,14 @@ theorem san_recovered (s : SanType)
     simp only [reqSan, importSan]
     rcases this with h | h <;> simp [h]
   | otherName oid v =>
-    have := hother oid v rfl
-    simp [reqSan, importSan, this]
+    obtain ⟨h1, h2⟩ := hother oid v rfl
+    have h3 : oid.any (fun x => decide (x ≥ 2 ^ 64)) = false := by
+      rw [List.any_eq_false]
+      intro x hx
+      have := h2 x hx
+      simp only [ge_iff_le, decide_eq_true_eq]
+      omega
+    simp [reqSan, importSan, h1, h3]
 
 /-- supported name-constraint subtrees (e-mail, DNS, IPv4 and IPv6 subnets with address and
     mask of the family's size), any number, permitted or excluded alike: recovered in order -/
